@@ -47,7 +47,13 @@ func scenario(seed int64, k int, res *l2.Result) {
 			res.Count("phases_converged", 1)
 			return true
 		}
-		if stuck {
+		if ll := b.LoneLiarBelieved(); stuck && ll != "" {
+			res.Violate(evid.Sig("c04/lone-liar-believed", pathOf(plan)),
+				fmt.Sprintf("%s: the honest tip (height %d) was not reported within %v and the client's state did not change during the last third of that time (last best height %d); %s", name, tip, deadline, last.BestHeight, ll), witness())
+		} else if df := b.ForkDeeperThanOneHeadersMessage(); stuck && df != "" {
+			res.Violate(evid.Sig("c04/fork-deeper-than-one-headers-message"),
+				fmt.Sprintf("%s: the honest tip (height %d) was not reported within %v and the client's state did not change during the last third of that time (last best height %d); %s", name, tip, deadline, last.BestHeight, df), witness())
+		} else if stuck {
 			res.Violate(evid.Sig("c04/no-progress", name, stuckCause(b)),
 				fmt.Sprintf("%s: the honest tip (height %d) was not reported within %v and the client's state did not change during the last third of that time (last best height %d, current=%v)",
 					name, tip, deadline, last.BestHeight, last.Current), witness())
@@ -126,7 +132,11 @@ func scenario(seed int64, k int, res *l2.Result) {
 	}
 	if good {
 		if v := w.ValidateStored(true); v != "" {
-			res.Violate(evid.Sig("c04/end-state", classify(plan)), v, witness())
+			if ll := b.LoneLiarBelieved(); ll != "" {
+				res.Violate(evid.Sig("c04/lone-liar-believed", pathOf(plan)), v+"; "+ll, witness())
+			} else {
+				res.Violate(evid.Sig("c04/end-state", classify(plan)), v, witness())
+			}
 		}
 	}
 	stopOK, _ := w.StopClient(60 * time.Second)
@@ -134,6 +144,13 @@ func scenario(seed int64, k int, res *l2.Result) {
 		res.Inconcl("Stop did not return within 60s (C17's subject)")
 	}
 	res.Sample = map[string]any{"plan": plan, "log_events": w.Log.Len(), "converged": good}
+}
+
+func pathOf(p l2.Plan) string {
+	if p.ChainLen >= 1000 {
+		return "checkpointed"
+	}
+	return "at-tip"
 }
 
 func reorgBelowCheckpoint(p l2.Plan, fork int32) bool {
